@@ -4,6 +4,7 @@ CONSTANTS
   Data = {1, 2}
   SemW = 2
   FixedMask = TRUE
+    FixedReentry = TRUE
   Junk = {0}
   Sides = {"fc"}
 SPECIFICATION Spec
